@@ -21,11 +21,11 @@ import (
 	"strings"
 	"unicode"
 
-	"golang.org/x/text/unicode/norm"
 	"github.com/pdfcpu/pdfcpu/pkg/api"
 	"github.com/pdfcpu/pdfcpu/pkg/pdfcpu"
 	"github.com/pdfcpu/pdfcpu/pkg/pdfcpu/model"
 	"github.com/pdfcpu/pdfcpu/pkg/pdfcpu/types"
+	"golang.org/x/text/unicode/norm"
 	ref "verif/harness/internal/ref/iso32000sec"
 	"verif/harness/internal/vk"
 )
